@@ -660,4 +660,171 @@ Proof.
 Qed.
 End Cube.
 
+
+(* ------------------------------------------------------------------ *)
+(* 5. contraction and the whole block entry                            *)
+(* ------------------------------------------------------------------ *)
+Lemma fsum_map_add {A} (f g : A -> F) l :
+  fsum (map (fun x => f x + g x) l) = fsum (map f l) + fsum (map g l).
+Proof. induction l as [|x l IH]; cbn [map FNum.fsum fold_right]; [ring|].
+  fold (fsum (map (fun x => f x + g x) l)) (fsum (map f l)) (fsum (map g l)). rewrite IH. ring. Qed.
+Lemma fsum_map_scale {A} c (f : A -> F) l :
+  fsum (map (fun x => c * f x) l) = c * fsum (map f l).
+Proof. induction l as [|x l IH]; cbn [map FNum.fsum fold_right]; [ring|].
+  fold (fsum (map (fun x => c * f x) l)) (fsum (map f l)). rewrite IH. ring. Qed.
+
+(* the double sum over the primitives of b (outer) and of a (inner) with norms and coefficients;
+   rows of ea / eb are (exponent, (radial norm, coefficient row)) *)
+Definition csum2 (ea eb : list (F * (F * list F))) (ma mb : nat) (G : F -> F -> F) : F :=
+  fsum (map (fun r : F * (F * list F) =>
+          fsum (map (fun q : F * (F * list F) =>
+                  G (fst q) (fst r) * fst (snd q) * nth ma (snd (snd q)) 0) ea)
+          * fst (snd r) * nth mb (snd (snd r)) 0) eb).
+
+Lemma csum2_ext ea eb ma mb G G' : (forall a b, G a b = G' a b) ->
+  csum2 ea eb ma mb G = csum2 ea eb ma mb G'.
+Proof. intros H. unfold csum2. f_equal. apply map_ext. intros r. do 3 f_equal.
+  apply map_ext. intros q. now rewrite H. Qed.
+
+Lemma csum2_lin ea eb ma mb G1 G2 c :
+  csum2 ea eb ma mb (fun a b => G1 a b + c * G2 a b)
+  = csum2 ea eb ma mb G1 + c * csum2 ea eb ma mb G2.
+Proof.
+  unfold csum2. rewrite <- fsum_map_scale, <- fsum_map_add. f_equal. apply map_ext. intros r.
+  rewrite (map_ext _ (fun q : F * (F * list F) =>
+     G1 (fst q) (fst r) * fst (snd q) * nth ma (snd (snd q)) 0
+     + c * (G2 (fst q) (fst r) * fst (snd q) * nth ma (snd (snd q)) 0))) by (intros q; ring).
+  rewrite fsum_map_add, fsum_map_scale. ring.
+Qed.
+
+Lemma Hf_csum2 ea eb ma mb ab (G : F -> F -> nat -> F) b : forall a,
+  Hf ab (fun i => csum2 ea eb ma mb (fun al be => G al be i)) b a
+  = csum2 ea eb ma mb (fun al be => Hf ab (G al be) b a).
+Proof.
+  induction b as [|b IH]; intros a; [reflexivity|].
+  cbn [Hf]. rewrite (IH (S a)), (IH a). symmetry. apply csum2_lin.
+Qed.
+
+Lemma H3_csum2 ea eb ma mb abx aby abz (G : F -> F -> nat -> nat -> nat -> F) bx by_ bz ax ay az :
+  H3 abx aby abz (fun x y z => csum2 ea eb ma mb (fun al be => G al be x y z)) bx by_ bz ax ay az
+  = csum2 ea eb ma mb (fun al be => H3 abx aby abz (G al be) bx by_ bz ax ay az).
+Proof.
+  unfold H3.
+  rewrite <- (Hf_csum2 ea eb ma mb abz
+    (fun al be z' => Hf aby (fun y' => Hf abx (fun x' => G al be x' y' z') bx ax) by_ ay)).
+  apply Hf_ext. intros z'.
+  rewrite <- (Hf_csum2 ea eb ma mb aby (fun al be y' => Hf abx (fun x' => G al be x' y' z') bx ax)).
+  apply Hf_ext. intros y'.
+  rewrite <- (Hf_csum2 ea eb ma mb abx (fun al be x' => G al be x' y' z')).
+  reflexivity.
+Qed.
+
+(* ---- the specification of one block entry (before the charge factor) ---- *)
+Section Spec.
+Variables (Cx Cy Cz : F).
+
+(* polynomial in s of one primitive pair and one pair of components *)
+Definition prim_poly (Ax Ay Az Bx By Bz alpha beta : F) (ca cb : comp) : list F :=
+  let p := alpha + beta in
+  let Px := (alpha * Ax + beta * Bx) / p in
+  let Py := (alpha * Ay + beta * By) / p in
+  let Pz := (alpha * Az + beta * Bz) / p in
+  P3ab (Px - Ax) (Px - Cx) (Py - Ay) (Py - Cy) (Pz - Az) (Pz - Cz) (1 / ((1 + 1) * p))
+       (Ax - Bx) (Ay - By) (Az - Bz)
+       (fst (fst ca)) (snd (fst ca)) (snd ca) (fst (fst cb)) (snd (fst cb)) (snd cb).
+
+(* its value at every s: the product over the axes of the Gaussian moments
+   E_{v(1-s)} ((y + PA - s PC)^a (y + PB - s PC)^b) *)
+Theorem prim_poly_eval Ax Ay Az Bx By Bz alpha beta ca cb s :
+  let p := alpha + beta in
+  let Px := (alpha * Ax + beta * Bx) / p in
+  let Py := (alpha * Ay + beta * By) / p in
+  let Pz := (alpha * Az + beta * Bz) / p in
+  let v := 1 / ((1 + 1) * p) in
+  peval (prim_poly Ax Ay Az Bx By Bz alpha beta ca cb) s
+  = S3 K (v * (1 - s)) (Px - Ax - s * (Px - Cx)) (Px - Bx - s * (Px - Cx)) 0 0%nat 0%nat
+       (fst (fst ca)) (fst (fst cb))
+  * S3 K (v * (1 - s)) (Py - Ay - s * (Py - Cy)) (Py - By - s * (Py - Cy)) 0 0%nat 0%nat
+       (snd (fst ca)) (snd (fst cb))
+  * S3 K (v * (1 - s)) (Pz - Az - s * (Pz - Cz)) (Pz - Bz - s * (Pz - Cz)) 0 0%nat 0%nat
+       (snd ca) (snd cb).
+Proof.
+  cbv zeta. unfold prim_poly. cbv zeta. rewrite P3ab_eval.
+  set (p := alpha + beta).
+  set (Px := (alpha * Ax + beta * Bx) / p). set (Py := (alpha * Ay + beta * By) / p).
+  set (Pz := (alpha * Az + beta * Bz) / p).
+  replace (Px - Ax + (Ax - Bx) - s * (Px - Cx)) with (Px - Bx - s * (Px - Cx)) by ring.
+  replace (Py - Ay + (Ay - By) - s * (Py - Cy)) with (Py - By - s * (Py - Cy)) by ring.
+  replace (Pz - Az + (Az - Bz) - s * (Pz - Cz)) with (Pz - Bz - s * (Pz - Cz)) by ring.
+  reflexivity.
+Qed.
+
+Definition prim_val (Ax Ay Az Bx By Bz alpha beta : F) (ca cb : comp) : F :=
+  Phi (boys_seq Ax Ay Az Bx By Bz Cx Cy Cz alpha beta) 0
+      (prim_poly Ax Ay Az Bx By Bz alpha beta ca cb).
+
+Definition erows (s : shell F) : list (F * (F * list F)) :=
+  combine (s_exps s) (combine (map (norm_rad K (s_l s)) (s_exps s)) (s_coeffs s)).
+
+Definition one_elec_spec (sa sb : shell F) (ma : nat) (ca : comp) (mb : nat) (cb : comp) : F :=
+  csum2 (erows sa) (erows sb) ma mb
+    (fun alpha beta => prim_val (s_x sa) (s_y sa) (s_z sa) (s_x sb) (s_y sb) (s_z sb) alpha beta ca cb)
+  * inv_sqrt_df K ca * inv_sqrt_df K cb.
+End Spec.
+
+Lemma combine_map_l' {A B C} (g : A -> C) (l : list A) (l2 : list B) :
+  combine (map g l) l2 = map (fun p => (g (fst p), snd p)) (combine l l2).
+Proof. revert l2; induction l as [|a l IH]; intros [|b l2]; cbn; [reflexivity..|]. now rewrite IH. Qed.
+
+Lemma nth_map_combine' {A B C} (f : A * B -> C) (la : list A) (lb : list B) i da db dc :
+  i < length la -> length lb = length la ->
+  nth i (map f (combine la lb)) dc = f (nth i la da, nth i lb db).
+Proof.
+  intros Hi Hl. rewrite (nth_indep _ dc (f (da, db))) by (rewrite map_length, combine_length; lia).
+  rewrite map_nth. now rewrite combine_nth by (symmetry; exact Hl).
+Qed.
+
+Theorem one_elec_entry Cx Cy Cz (sa sb : shell F) ma ia mb ib :
+  (forall x, fapx K x = x) ->
+  let ca := nth ia (comps_of sa) (0, 0, 0)%nat in
+  let cb := nth ib (comps_of sb) (0, 0, 0)%nat in
+  ma < nseg sa -> ia < length (comps_of sa) -> mb < nseg sb -> ib < length (comps_of sb) ->
+  (fst (fst cb) <= s_l sb)%nat -> (snd (fst cb) <= s_l sb)%nat -> (snd cb <= s_l sb)%nat ->
+  (fst (fst ca) + snd (fst ca) + snd ca + (fst (fst cb) + snd (fst cb) + snd cb) <= s_l sa + s_l sb)%nat ->
+  nth ib (nth mb (nth ia (nth ma (one_elec_point K Cx Cy Cz sa sb) []) []) []) 0
+  = one_elec_spec Cx Cy Cz sa sb ma ca mb cb.
+Proof.
+  intros Hapx ca cb Hma Hia Hmb Hib Hbx Hby Hbz Hsum.
+  unfold one_elec_point. cbv zeta.
+  rewrite nth_mk by exact Hma.
+  rewrite (nth_map_combine' _ (comps_of sa) (map (inv_sqrt_df K) (comps_of sa)) ia (0,0,0)%nat 0 [])
+    by (rewrite ?map_length; auto).
+  rewrite nth_mk by exact Hmb.
+  rewrite (nth_map_combine' _ (comps_of sb) (map (inv_sqrt_df K) (comps_of sb)) ib (0,0,0)%nat 0 0)
+    by (rewrite ?map_length; auto).
+  rewrite (nth_map_in (inv_sqrt_df K) _ ia (0,0,0)%nat) by exact Hia.
+  rewrite (nth_map_in (inv_sqrt_df K) _ ib (0,0,0)%nat) by exact Hib.
+  fold ca cb. destruct ca as [[ax ay] az] eqn:Eca. destruct cb as [[bx by_] bz] eqn:Ecb.
+  cbn [fst snd] in *.
+  rewrite nth_mk by exact Hma. rewrite nth_mk by exact Hmb.
+  set (L := (s_l sa + s_l sb)%nat) in *.
+  rewrite hrr_entry by lia.
+  unfold one_elec_spec. f_equal. f_equal.
+  (* the contracted cube, entry by entry, is the double sum of the primitive cubes *)
+  rewrite (H3_ext_local _ _ _ _
+    (fun x y z => csum2 (erows sa) (erows sb) ma mb (fun alpha beta =>
+       cget K (vrr_prim K L (s_x sa) (s_y sa) (s_z sa) (s_x sb) (s_y sb) (s_z sb) Cx Cy Cz alpha beta) x y z))).
+  2:{ intros x y z Hx Hy Hz. unfold cget at 1.
+      rewrite nth_mk by lia. rewrite nth_mk by lia. rewrite nth_mk by lia.
+      unfold csum2, erows. rewrite (combine_map_l' _ (s_exps sb) (combine _ (s_coeffs sb))), map_map. f_equal. apply map_ext.
+      intros [be [nbk crow_b]]. cbn [fst snd]. do 2 f_equal.
+      rewrite (combine_map_l' _ (s_exps sa) (combine _ (s_coeffs sa))), map_map. f_equal. apply map_ext.
+      intros [al [nak crow_a]]. reflexivity. }
+  rewrite H3_csum2. apply csum2_ext. intros alpha beta.
+  unfold prim_val, prim_poly. cbv zeta. cbn [fst snd].
+  rewrite <- H3_of_Phi. apply H3_ext_local. intros x y z Hx Hy Hz.
+  rewrite vrr_prim_is_cube by exact Hapx. cbv zeta.
+  apply vrr_cube_entry. lia.
+Qed.
+
 End P.
